@@ -267,7 +267,7 @@ func pathAvoidingPred(e *Env, target *ssa.BasicBlock, pred func(Fact) bool) []st
 	cut := map[edge]bool{}
 	for ed, fs := range e.EdgeFacts() {
 		for _, f := range fs {
-			if pred(f) {
+			if sat(pred, f) {
 				cut[ed] = true
 			}
 		}
